@@ -426,6 +426,8 @@ fn build_enum(
 
     let syn_fields = fields.iter().enumerate().map(|(idx, (name, value))| {
         let name_ident = str_to_ident(name);
+        // An `isize` literal is truncated to 32 bits when the bindings are compiled for a 32-bit target.
+        let value = *value as i64;
         let field = quote! {
             #name_ident = #value as _
         };
